@@ -39,7 +39,12 @@ func c16(r *Report) {
 	r.Gate(Gate{ID: "C16.verify.has-id", Fn: vr, Effect: ok, Check: CmpCheck("presentation.ID == nil is false", token.EQL, FieldV("VerifiablePresentation", "ID"), NilV(), false)})
 	r.Gate(Gate{ID: "C16.verify.audience", Fn: vr, Effect: ok, Check: ErrCheck(Fn(d, "", "validateAudience"))})
 	r.Gate(Gate{ID: "C16.verify.expiration-set", Fn: vr, Effect: ok, Check: CallCheck(Fn("std:time", "Time", "IsZero"), -1, IsFalse)})
-	r.Gate(Gate{ID: "C16.verify.max-validity", Fn: vr, Effect: ok, Check: CmpCheck("time.Until(exp) <= PresentationMaxValidity", token.LEQ, CallV(Fn("std:time", "", "Until"), -1), AnyV(), true)})
+	r.Gate(Gate{ID: "C16.verify.max-validity", Fn: vr, Effect: ok, Check: CmpCheck("time.Until(exp) <= PresentationMaxValidity seconds", token.LEQ, CallV(Fn("std:time", "", "Until"), -1), MulConstV(FieldV("ServiceDefinition", "PresentationMaxValidity"), 1000000000), true)})
+	r.ArgIs("C16.verify.max-validity.of-vp-expiration", vr, Fn("std:time", "", "Until"), 0, CallV(Fn(jwtPkg, "Token", "Expiration"), -1), 1)
+	va := p.Func(d, "", "validateAudience")
+	r.Gate(Gate{ID: "C16.verify.audience.is-service-id", Fn: va, Effect: ok, Check: CmpCheck("audienceID == service.ID", token.EQL, AnyV(), FieldV("ServiceDefinition", "ID"), true)})
+	r.ArgIs("C16.verify.audience.of-this-service", vr, Fn(d, "", "validateAudience"), 0, ParamV("definition"), 1)
+	r.ArgIs("C16.verify.audience.of-the-token", vr, Fn(d, "", "validateAudience"), 1, CallV(Fn(jwtPkg, "Token", "Audience"), -1), 1)
 	r.Gate(Gate{ID: "C16.verify.signer", Fn: vr, Effect: ok, Check: ErrCheck(Fn("vcr/credential", "", "PresentationSigner"))})
 	r.Gate(Gate{ID: "C16.verify.did-method", Fn: vr, Effect: ok, Check: CallCheck(Fn("std:slices", "", "Contains"), -1, IsTrue),
 		Alt: []Check{CmpCheck("len(DIDMethods) > 0 is false", token.LEQ, LenV(FieldV("ServiceDefinition", "DIDMethods")), IntV(0), true)}})
@@ -59,6 +64,8 @@ func c16(r *Report) {
 	c16MethodOfSigner(r, vr)
 	// registration content
 	vg := p.Func(d, "Module", "validateRegistration")
+	r.ArgIs("C16.registration.not-outliving.vp-expiration-is-receiver", vg, Fn("std:time", "Time", "After"), -1, CallV(Fn(jwtPkg, "Token", "Expiration"), -1), 1)
+	r.ArgIs("C16.registration.not-outliving.credential-expiration-is-argument", vg, Fn("std:time", "Time", "After"), 0, FieldV("VerifiableCredential", "ExpirationDate"), 1)
 	r.Gate(Gate{ID: "C16.registration.not-outliving-credentials", Fn: vg, Effect: ok, ForEach: true, Check: CallCheck(Fn("std:time", "Time", "After"), -1, IsFalse),
 		Skip: []Check{CmpCheck("cred.ExpirationDate == nil", token.EQL, FieldV("VerifiableCredential", "ExpirationDate"), NilV(), true)}})
 	r.Gate(Gate{ID: "C16.registration.definition-match", Fn: vg, Effect: ok, Check: ErrCheck(Fn("vcr/pe", "PresentationDefinition", "Match"))})
@@ -83,6 +90,19 @@ func c16(r *Report) {
 	r.Gate(Gate{ID: "C16.client.seed-checked-before-add", Fn: us, Effect: CallEffect(Fn(d, "sqlStore", "add")), Check: ErrCheck(Fn(d, "sqlStore", "wipeOnSeedChange"))})
 	r.Gate(Gate{ID: "C16.client.fetched", Fn: us, Effect: CallEffect(Fn(d, "sqlStore", "add")), Check: ErrCheck(Fn("discovery/api/server/client", "HTTPClient", "Get"))})
 	c16ClientVerifierIsVerifyRegistration(r)
+	// background validation: an entry is kept for updateValidated only if this node's own verification succeeded
+	bv := p.Func(d, "clientRegistrationManager", "validate")
+	keep := InstrEffect("keep the entry in the list handed to updateValidated", func(in ssa.Instruction) bool {
+		st, ok := in.(*ssa.Store)
+		if !ok {
+			return false
+		}
+		_, isIdx := st.Addr.(*ssa.IndexAddr)
+		return isIdx && strings.Contains(st.Val.Type().String(), "presentationRecord")
+	})
+	r.Gate(Gate{ID: "C16.client.background-validated-only-after-own-verification", Fn: bv, Effect: keep, Check: ErrCheck(DynField("verifier"))})
+	r.Gate(Gate{ID: "C16.client.background-validated-parsed", Fn: bv, Effect: keep, Check: ErrCheck(Fn(vcPkg, "", "ParseVerifiablePresentation"))})
+	gormTxDiscipline(r, "C16.sql.tx-handle", "discovery")
 	se := p.Func(d, "sqlStore", "search")
 	appendEff := InstrEffect("append to search results", func(in ssa.Instruction) bool {
 		c, ok := in.(*ssa.Call)
@@ -92,7 +112,7 @@ func c16(r *Report) {
 		b, ok := c.Call.Value.(*ssa.Builtin)
 		return ok && b.Name() == "append"
 	})
-	r.Gate(Gate{ID: "C16.search.unexpired-only", Fn: se, Effect: appendEff, Check: CmpCheck("PresentationExpiration <= now is false", token.LEQ, FieldV("presentationRecord", "PresentationExpiration"), AnyV(), false)})
+	r.Gate(Gate{ID: "C16.search.unexpired-only", Fn: se, Effect: appendEff, Check: CmpCheck("PresentationExpiration <= time.Now().Unix() is false", token.LEQ, FieldV("presentationRecord", "PresentationExpiration"), NowUnixV(), false)})
 	c16SearchValidatedFilter(r, se)
 }
 
